@@ -157,6 +157,9 @@ structure SchedSt where
   cancel    : List Nat := []                    -- `_cancel_list`
   given     : List (Nat × List Slot) := []      -- task['slots'] by uid (last placement)
   unschedQ  : List (List Nat) := []             -- messages still on the unschedule queue
+  /-- history variable (not in the code): the placements made by the scheduler that were not yet
+      released, as (uid, slots); written by `_try_allocation` and `_unschedule_completed`, never read -/
+  held      : List (Nat × List Slot) := []
 deriving Repr
 
 def slotsPerNode (c : Cfg) (r : Req) (cps : Nat) : Nat :=
@@ -301,7 +304,8 @@ def tryAllocation (c : Cfg) (s : SchedSt) (r : Req) : Except Err Bool × SchedSt
     match changeSlotStates s'.nodes slots true with
     | none    => (.error .runtime, { s' with activeCnt := s'.activeCnt + 1 })
     | some ns => (.ok true, { s' with nodes := ns, activeCnt := s'.activeCnt + 1,
-                                      given := (s'.given.filter (fun e => e.1 ≠ r.uid)) ++ [(r.uid, slots)] })
+                                      given := (s'.given.filter (fun e => e.1 ≠ r.uid)) ++ [(r.uid, slots)],
+                                      held  := s'.held ++ [(r.uid, slots)] })
 
 /-! ### `ru.lazy_bisect` (ratio 0.5) with a stateful check -/
 
@@ -539,19 +543,22 @@ def drainUnsched : List (List Nat) → List Nat → List Nat × List (List Nat)
   | [],      acc => (acc, [])
   | m :: ms, acc => if (acc ++ m).length > 512 then (acc ++ m, ms) else drainUnsched ms (acc ++ m)
 
+/-- the release of one task named on the unschedule queue: `_change_slot_states(task['slots'], FREE)` -/
+def releaseOne (acc : SchedSt) (uid : Nat) : SchedSt :=
+  match acc.given.find? (fun e => e.1 = uid) with
+  | none   => acc
+  | some e =>
+    match changeSlotStates acc.nodes e.2 false with
+    | none    => acc
+    | some ns => { acc with nodes := ns, held := acc.held.erase e }
+
 /-- `_unschedule_completed`: (state, resources, active) -/
 def unscheduleCompleted (s : SchedSt) (msgs : List (List Nat)) : SchedSt × Bool × Bool :=
   match drainUnsched (s.unschedQ ++ msgs) [] with
   | (uids, rest) =>
     if uids = [] then ({ s with unschedQ := rest }, false, false)
     else
-      (uids.foldl (fun (acc : SchedSt) uid =>
-          match acc.given.find? (fun e => e.1 = uid) with
-          | none   => acc
-          | some e =>
-            match changeSlotStates acc.nodes e.2 false with
-            | none    => acc
-            | some ns => { acc with nodes := ns })
+      (uids.foldl releaseOne
         { s with activeCnt := s.activeCnt - uids.length, unschedQ := rest }, true, true)
 
 /-- one iteration of the `while` loop of `_schedule_tasks`; `res` is the `resources` flag -/
